@@ -113,6 +113,44 @@ Proof.
       apply Nat.leb_le in H as ->. reflexivity.
 Qed.
 
+(* ------------------------------------------------------------------ element-wise operators, pointwise *)
+Lemma nth_zipw (f : T -> T -> T) (u w : list T) i : i < length u -> i < length w ->
+  nth i (zipw f u w) zero = f (nth i u zero) (nth i w zero).
+Proof.
+  revert w i; induction u as [|x u IH]; intros [|y w] i Hu Hw; cbn in Hu, Hw; try lia.
+  destruct i as [|i]; [reflexivity|]. unfold zipw in *. cbn. apply IH; lia.
+Qed.
+
+Lemma nth_map_lt (f : T -> T) (u : list T) i : i < length u -> nth i (map f u) zero = f (nth i u zero).
+Proof.
+  revert i; induction u as [|x u IH]; intros i H; cbn in H; [lia|].
+  destruct i as [|i]; [reflexivity|]. cbn. apply IH; lia.
+Qed.
+
+(* &u + &w, &u - &w: defined exactly on equal sizes, then entry i is u[i] op w[i]; unary minus, the scalar
+   forms and abs entry by entry (the compound assignments are the same functions) *)
+Lemma elementwise_spec_lemma (u w : list T) (c : T) :
+  (length u = length w -> exists s d, vadd u w = Ok s /\ vsub u w = Ok d /\ length s = length u /\ length d = length u /\
+      forall i, i < length u -> nth i s zero = add (nth i u zero) (nth i w zero) /\
+                                nth i d zero = sub (nth i u zero) (nth i w zero)) /\
+  (length u <> length w -> vadd u w = Panic Guard /\ vsub u w = Panic Guard) /\
+  (length (vneg u) = length u /\ length (vscale u c) = length u /\ length (vscale_l c u) = length u /\
+   length (vabs u) = length u /\ length (vadd_scalar u c) = length u /\ length (vsub_scalar u c) = length u) /\
+  (forall i, i < length u ->
+      nth i (vneg u) zero = neg (nth i u zero) /\ nth i (vscale u c) zero = mul (nth i u zero) c /\
+      nth i (vscale_l c u) zero = mul c (nth i u zero) /\ nth i (vabs u) zero = abs (nth i u zero) /\
+      nth i (vadd_scalar u c) zero = add (nth i u zero) c /\ nth i (vsub_scalar u c) zero = sub (nth i u zero) c).
+Proof.
+  split; [|split; [|split]].
+  - intros L. unfold vadd, vsub. rewrite L, Nat.eqb_refl. do 2 eexists. split; [reflexivity|]. split; [reflexivity|].
+    unfold zipw at 1 2. rewrite !map_length, !combine_length. split; [lia|]. split; [lia|].
+    intros i Hi. split; apply nth_zipw; lia.
+  - intros L. unfold vadd, vsub. apply Nat.eqb_neq in L as ->. auto.
+  - unfold vneg, vscale, vscale_l, vabs, vadd_scalar, vsub_scalar. now rewrite !map_length.
+  - intros i Hi. unfold vneg, vscale, vscale_l, vabs, vadd_scalar, vsub_scalar.
+    repeat split; now apply nth_map_lt.
+Qed.
+
 Lemma vadd_inv (u v s : list T) : vadd u v = Ok s -> length u = length v /\ s = zipw add u v.
 Proof.
   unfold vadd. destruct (Nat.eqb_spec (length u) (length v)) as [L|L]; [|discriminate].
